@@ -68,7 +68,17 @@
 //! One line out: `T raw(r0) raw(r1)` then per step `raw(result) bits(f64::from(result)) code` where code is the
 //! relation code (as above) of the ordered operand pair (r_i, r_j), taken through references to the two
 //! registers (the same reference twice when i = j).
+//!
+//! ## Leaf kernels: `kern <kind> <a-hex> <b-hex> <nx> x.. <ny> y.. <np> p..`   (src/kern.rs)
+//! The operations inlined into `#[inline(never)]` LEAF functions (dot product, Horner, running sums with loop-invariant
+//! f80 factors, counting against an f80 limit, min/max scans, f80 mixed with f64 / integer flags): f80 locals stay alive
+//! in the function's red zone across conversions, relations, min, max, abs, neg.  Each kernel is also computed step by
+//! step (`apply`, `rel_code`, every value through `black_box`); a difference is the failed internal check
+//! `leaf-kernel-<kind>-differs-from-the-step-by-step-computation`.  Line out: the `T ...` line of the fixed program
+//! `mul 0 1, add 2 0, sub 3 1` on (a, b), then ` K <kind> v0 .. v5` (the kernel's integers; the plugin compares them
+//! with exact arithmetic).
 mod hidden;
+mod kern;
 mod preamble;
 
 // (which of the two helper traits is used depends on whether f80 implements the optional trait)
@@ -114,7 +124,7 @@ fn push_raw(out: &mut Vec<String>, r: f80) {
 
 /// every relation of the crate on the ordered pair (*u, *v), through the given references
 /// (`*u < *v` is `PartialOrd::lt(&*u, &*v)`: no copy is made)
-fn rel_code(u: &f80, v: &f80, fails: &mut Vec<&'static str>) -> u32 {
+pub fn rel_code(u: &f80, v: &f80, fails: &mut Vec<&'static str>) -> u32 {
     let eq = *u == *v;
     let ne = *u != *v;
     if eq == ne {
@@ -484,6 +494,46 @@ fn no_x() -> bool {
     std::env::var_os("C18_NO_X").is_some()
 }
 
+/// one step of a straight-line program (also the primitive of the step-by-step side of src/kern.rs)
+#[inline(never)]
+pub fn apply(op: &str, u: f80, v: f80) -> f80 {
+    match op {
+        "add" => u + v,
+        "sub" => u - v,
+        "mul" => u * v,
+        "div" => u / v,
+        "adda" => {
+            let mut w = u;
+            w += v;
+            w
+        }
+        "suba" => {
+            let mut w = u;
+            w -= v;
+            w
+        }
+        "mula" => {
+            let mut w = u;
+            w *= v;
+            w
+        }
+        "diva" => {
+            let mut w = u;
+            w /= v;
+            w
+        }
+        "neg" => -u,
+        "abs" => u.abs(),
+        "min" => u.min(v),
+        "max" => u.max(v),
+        "rnd" => f80::from(f64::from(u)),
+        _ => {
+            eprintln!("harness: unknown trace op {:?}", op);
+            std::process::exit(3)
+        }
+    }
+}
+
 fn trace(t: &[&str]) -> String {
     let a = f64::from_bits(u64::from_str_radix(t[1], 16).expect("hex"));
     let b = f64::from_bits(u64::from_str_radix(t[2], 16).expect("hex"));
@@ -513,41 +563,7 @@ fn trace(t: &[&str]) -> String {
         }
         let (u, v) = (regs[i], regs[j]);
         let before = hidden::quick();
-        let r = match op {
-            "add" => u + v,
-            "sub" => u - v,
-            "mul" => u * v,
-            "div" => u / v,
-            "adda" => {
-                let mut w = u;
-                w += v;
-                w
-            }
-            "suba" => {
-                let mut w = u;
-                w -= v;
-                w
-            }
-            "mula" => {
-                let mut w = u;
-                w *= v;
-                w
-            }
-            "diva" => {
-                let mut w = u;
-                w /= v;
-                w
-            }
-            "neg" => -u,
-            "abs" => u.abs(),
-            "min" => u.min(v),
-            "max" => u.max(v),
-            "rnd" => f80::from(f64::from(u)),
-            _ => {
-                eprintln!("harness: unknown trace op {:?}", op);
-                std::process::exit(3)
-            }
-        };
+        let r = apply(op, u, v);
         if hidden::quick() != before {
             fails.push("x87-state-changed-by-a-step-of-the-program");
         }
@@ -565,10 +581,151 @@ fn trace(t: &[&str]) -> String {
     finish(out.join(" "), fails)
 }
 
+/// `kern <kind> <a> <b> <nx> x.. <ny> y.. <np> p..` (all numbers binary64 bit patterns in hex): the leaf kernel `kind`
+/// of src/kern.rs on the inputs, against its step-by-step twin.  One line out: the line of the fixed straight-line
+/// program `mul 0 1, add 2 0, sub 3 1` on (a, b) - so that the case is an ordinary `Trace` for Coq - followed by
+/// ` K <kind> v0 .. v5`, the six integers of the kernel (counters, raw bytes, f64 bit patterns; see src/kern.rs).
+fn kern_case(t: &[&str]) -> String {
+    let hexf = |s: &str| f64::from_bits(u64::from_str_radix(s, 16).expect("hex"));
+    let kind = t[1];
+    let mut pos = 4;
+    let mut lists: Vec<Vec<f64>> = Vec::new();
+    for _ in 0..3 {
+        let n: usize = vh::p(t[pos]);
+        lists.push(t[pos + 1..pos + 1 + n].iter().map(|s| hexf(s)).collect());
+        pos += 1 + n;
+    }
+    let head = trace(&["trace", t[2], t[3], "3", "mul", "0", "1", "add", "2", "0", "sub", "3", "1"]);
+    if !head.starts_with("T ") {
+        return head;
+    }
+    let mut fails: Vec<&'static str> = Vec::new();
+    let h0 = hidden::full();
+    let got = watched!(fails, "a-leaf-kernel", kern::run(kind, &lists[0], &lists[1], &lists[2]));
+    let (leaf, slow) = match got {
+        Some(r) => r,
+        None => {
+            eprintln!("harness: unknown kernel {:?}", kind);
+            std::process::exit(3)
+        }
+    };
+    if leaf != slow {
+        fails.push(Box::leak(format!("leaf-kernel-{}-differs-from-the-step-by-step-computation", kind).into_boxed_str()));
+    }
+    // the kernel once more, after the step-by-step twin: same inputs, same answer
+    if let Some((again, _)) = kern::run(kind, &lists[0], &lists[1], &lists[2]) {
+        if again != leaf {
+            fails.push("leaf-kernel-is-not-deterministic");
+        }
+    }
+    if hidden::full() != h0 {
+        fails.push("x87-state-left-changed-at-the-end-of-the-case");
+    }
+    let vals: Vec<String> = leaf.iter().map(|v| v.to_string()).collect();
+    finish(format!("{} K {} {}", head, kind, vals.join(" ")), fails)
+}
+
+// ---------------------------------------------------------------------------------------- kernels in a child process
+// A leaf kernel whose red zone is overwritten does not only compute wrong numbers: the overwritten slot may hold a
+// slice pointer or a loop bound, and the process dies with SIGSEGV.  The kernels therefore run in a child process
+// (this executable again, C18_KERN_CHILD=1, one line in -> one line out, flushed); a child that dies is a failed
+// internal check of the case and is replaced by a fresh one.
+struct KernChild {
+    proc: std::sync::Arc<std::sync::Mutex<std::process::Child>>,
+    to: std::process::ChildStdin,
+    from: std::io::BufReader<std::process::ChildStdout>,
+}
+
+static KERN_CHILD: std::sync::Mutex<Option<KernChild>> = std::sync::Mutex::new(None);
+
+fn spawn_kern_child() -> Option<KernChild> {
+    let exe = std::env::current_exe().ok()?;
+    let mut proc = std::process::Command::new(exe)
+        .env("C18_KERN_CHILD", "1")
+        .stdin(std::process::Stdio::piped())
+        .stdout(std::process::Stdio::piped())
+        .stderr(std::process::Stdio::null())
+        .spawn()
+        .ok()?;
+    let to = proc.stdin.take()?;
+    let from = std::io::BufReader::new(proc.stdout.take()?);
+    Some(KernChild { proc: std::sync::Arc::new(std::sync::Mutex::new(proc)), to, from })
+}
+
+fn kern_in_child(t: &[&str]) -> String {
+    use std::io::{BufRead, Write};
+    let mut guard = KERN_CHILD.lock().unwrap_or_else(|e| e.into_inner());
+    if guard.is_none() {
+        *guard = spawn_kern_child();
+    }
+    let answer = match guard.as_mut() {
+        None => return kern_case(t), // no child process available: in this process
+        Some(ch) => {
+            // watchdog: an overwritten loop bound may as well make the kernel run for ever
+            let (done, wait) = std::sync::mpsc::channel::<()>();
+            let victim = ch.proc.clone();
+            let dog = std::thread::spawn(move || {
+                if wait.recv_timeout(std::time::Duration::from_secs(20)) == Err(std::sync::mpsc::RecvTimeoutError::Timeout) {
+                    let _ = victim.lock().unwrap_or_else(|e| e.into_inner()).kill();
+                }
+            });
+            let mut line = String::new();
+            let sent = writeln!(ch.to, "{}", t.join(" ")).and_then(|_| ch.to.flush());
+            let got = sent.and_then(|_| ch.from.read_line(&mut line));
+            let _ = done.send(());
+            let _ = dog.join();
+            match got {
+                Ok(n) if n > 0 && line.ends_with('\n') => Some(line.trim_end().to_string()),
+                _ => None,
+            }
+        }
+    };
+    match answer {
+        Some(l) => l,
+        None => {
+            if let Some(ch) = guard.take() {
+                let mut p = ch.proc.lock().unwrap_or_else(|e| e.into_inner());
+                let _ = p.kill();
+                let _ = p.wait();
+            }
+            finish(String::new(), vec![Box::leak(format!("leaf-kernel-{}-killed-the-process", t[1]).into_boxed_str())])
+        }
+    }
+}
+
+fn kern_child_main() {
+    use std::io::{BufRead, Write};
+    std::panic::set_hook(Box::new(|_| {}));
+    let base = hidden::full();
+    let stdin = std::io::stdin();
+    let stdout = std::io::stdout();
+    for line in stdin.lock().lines() {
+        let line = match line {
+            Ok(l) => l,
+            Err(_) => break,
+        };
+        let toks: Vec<&str> = line.split_whitespace().collect();
+        if toks.is_empty() {
+            continue;
+        }
+        let res = std::panic::catch_unwind(std::panic::AssertUnwindSafe(|| kern_case(&toks))).unwrap_or_else(|_| "P".to_string());
+        if hidden::full() != base {
+            hidden::restore(base);
+        }
+        let mut out = stdout.lock();
+        if writeln!(out, "{}", res).and_then(|_| out.flush()).is_err() {
+            break;
+        }
+    }
+}
+
 fn main() {
     // C18_NO_INIT=1: the process never calls f80_init (legal on Linux, where it does nothing)
     if std::env::var_os("C18_NO_INIT").is_none() {
         rlib_f80::f80_init();
+    }
+    if std::env::var_os("C18_KERN_CHILD").is_some() {
+        return kern_child_main();
     }
     let base = hidden::full();
     vh::serve(|t| {
@@ -579,12 +736,19 @@ fn main() {
         }
         line
     });
+    if let Some(ch) = KERN_CHILD.lock().unwrap_or_else(|e| e.into_inner()).take() {
+        drop(ch.to);
+        let _ = ch.proc.lock().unwrap_or_else(|e| e.into_inner()).wait();
+    }
 }
 
 fn one_line(t: &[&str]) -> String {
     {
         if t[0] == "trace" {
             return trace(t);
+        }
+        if t[0] == "kern" {
+            return kern_in_child(t);
         }
         let abits = u64::from_str_radix(t[1], 16).expect("hex");
         let bbits = u64::from_str_radix(t[2], 16).expect("hex");
